@@ -10,7 +10,7 @@ Open Scope Z_scope.
 (* beanquery.query_env.BeanTable.prepare; parameters: self *)
 Definition src_prepare : fdef :=
   {| f_params := ["self"];
-     f_body := [(SAssign (TName "entries") (XAttr (XName "self") "entries")); (SAssign (TName "options") (XAttr (XName "self") "options")); (SIf (XCompare (XAttr (XName "self") "close") [(CIsNot, (XConst PNone))]) [(SIf (XPrim "builtins.isinstance" [(XAttr (XName "self") "close"); (XConst (PRef 0))]) [(SUnpack [(TName "entries"); (TName "index")] (XPrim "beancount.ops.summarize.close_opt" [(XName "entries"); (XAttr (XName "self") "close"); (XName "options")]))] [(SIf (XCompare (XAttr (XName "self") "close") [(CIs, (XConst (PBool true)))]) [(SUnpack [(TName "entries"); (TName "index")] (XPrim "beancount.ops.summarize.close_opt" [(XName "entries"); (XConst PNone); (XName "options")]))] [])])] []); (SIf (XCompare (XAttr (XName "self") "open") [(CIsNot, (XConst PNone))]) [(SUnpack [(TName "entries"); (TName "index")] (XPrim "beancount.ops.summarize.open_opt" [(XName "entries"); (XAttr (XName "self") "open"); (XName "options")]))] []); (SIf (XCompare (XAttr (XName "self") "clear") [(CIsNot, (XConst PNone))]) [(SUnpack [(TName "entries"); (TName "index")] (XPrim "beancount.ops.summarize.clear_opt" [(XName "entries"); (XConst PNone); (XName "options")]))] []); (SReturn (Some (XName "entries")))];
+     f_body := [(SAssign (TName "entries") (XAttr (XName "self") "entries")); (SAssign (TName "options") (XAttr (XName "self") "options")); (SIf (XCompare (XAttr (XName "self") "open") [(CIsNot, (XConst PNone))]) [(SUnpack [(TName "entries"); (TName "index")] (XPrim "beancount.ops.summarize.open_opt" [(XName "entries"); (XAttr (XName "self") "open"); (XName "options")]))] []); (SIf (XCompare (XAttr (XName "self") "close") [(CIsNot, (XConst PNone))]) [(SIf (XPrim "builtins.isinstance" [(XAttr (XName "self") "close"); (XConst (PRef 0))]) [(SUnpack [(TName "entries"); (TName "index")] (XPrim "beancount.ops.summarize.close_opt" [(XName "entries"); (XAttr (XName "self") "close"); (XName "options")]))] [(SIf (XCompare (XAttr (XName "self") "close") [(CIs, (XConst (PBool true)))]) [(SUnpack [(TName "entries"); (TName "index")] (XPrim "beancount.ops.summarize.close_opt" [(XName "entries"); (XConst PNone); (XName "options")]))] [])])] []); (SIf (XCompare (XAttr (XName "self") "clear") [(CIsNot, (XConst PNone))]) [(SUnpack [(TName "entries"); (TName "index")] (XPrim "beancount.ops.summarize.clear_opt" [(XName "entries"); (XConst PNone); (XName "options")]))] []); (SReturn (Some (XName "entries")))];
      f_gen := false |}.
 
 Definition refs : list (nat * string) :=
